@@ -26,6 +26,9 @@ type Planned struct {
 	Kind   Kind
 	// Match, when set, replaces the Nth rule: the fault fires on the first call of the client it accepts
 	Match func(c *Call) bool
+	// Times > 1 (with Match): the fault fires on the first Times calls Match accepts (a short outage hitting one object)
+	Times int
+	count int
 	fired bool
 }
 
@@ -51,7 +54,10 @@ func (w *World) decideFault(c *Call) Kind {
 		}
 		if p.Match != nil {
 			if p.Match(c) {
-				p.fired = true
+				p.count++
+				if p.count >= p.Times {
+					p.fired = true
+				}
 				return p.Kind
 			}
 			continue
